@@ -69,6 +69,7 @@ def build(tier):
                                          tag="_o%d_s%d" % (off, size), timeout=120))
                     continue
                 qs.append(mq(sg, [op], pre, prime=True, replay=(op in (2, 5) and pre == 3), timeout=280 if quick else 900,
+                             stretch=(not quick and sg in ([1, 1, 1], [0, 0, 2])),     # thorough-only 3-segment starts: near the cap under load
                              sample={"segments": sg, "manager_prepend": pre, "ops": [KINDS[op]],
                                      "arguments": "symbolic ints in [-24,24]", "bytes": "symbolic",
                                      "offset_cache": "primed by a symbolic read"}
